@@ -106,6 +106,18 @@ void register_form(const OpEntry* entries, int count, char form) {
 }
 }  // namespace
 
+struct ClitTable { const ClitEntry* entries; int count; };
+ClitTable g_clits[4096];
+int g_nclits = 0;
+void clit_mark(char c, const char* name) {
+  char buf[400];
+  int n = std::snprintf(buf, sizeof buf, "@%c L %s\n", c, name);
+  if (n > 0) { ssize_t w = ::write(2, buf, static_cast<size_t>(n)); (void)w; }
+}
+void register_clits(const ClitEntry* entries, int count) {
+  if (g_nclits < 4096) g_clits[g_nclits++] = ClitTable{entries, count};
+}
+
 void register_ops(const OpEntry* entries, int count) { register_form(entries, count, 's'); }
 void register_ops_inline(const OpEntry* entries, int count) { register_form(entries, count, 'i'); }
 }  // namespace vrt
@@ -118,6 +130,18 @@ int main() {
     std::printf("P %d %c %d %016llx %ld %s %d %016llx %ld %s %s\n", id, rec.form, rec.pre_status,
                 static_cast<unsigned long long>(rec.pre_h), rec.pre_len, (rec.pre_type && *rec.pre_type) ? rec.pre_type : "-", r.status,
                 static_cast<unsigned long long>(r.h), r.len, (r.type && *r.type) ? r.type : "-", rec.e->name);
+  }
+  int lid = 1000000;
+  for (int t = 0; t < vrt::g_nclits; ++t) {
+    for (int i = 0; i < vrt::g_clits[t].count; ++i, ++lid) {
+      const vrt::ClitEntry& e = vrt::g_clits[t].entries[i];
+      int st = 0, mst = 0;
+      vrt::ClitHash a{0, 0}, b{0, 0};
+      try { a = e.object(); } catch (...) { st = 1; }
+      try { b = e.runtime(); } catch (...) { mst = 1; }
+      std::printf("P %d c %d %016llx %ld - %d %016llx %ld - %s\n", lid, st, static_cast<unsigned long long>(a.h), a.len, mst,
+                  static_cast<unsigned long long>(b.h), b.len, e.name);
+    }
   }
   std::printf("DONE %d\n", vrt::g_napi);
   std::fflush(stdout);
